@@ -413,15 +413,16 @@ def job_stats_public(j, seed):
 
 def job_assess(j, seed):
     """(iv) a result marked successful satisfies every stated requirement (non-uniform grids; index arithmetic in range)."""
-    n, peak_name = j
+    n, peak_name, *more = j
+    symreq = bool(more and more[0])  # requirements given by the caller (arbitrary factors) instead of the defaults
     from symex import core as C
     from .symutil import fresh_run
 
     sc, model, fp, rp = _load()
     fresh_run()
     obs, cands = [], []
-    tag = f'assess[n={n},{peak_name}]'
-    case = {'kind': 'assess', 'n': n, 'peak': peak_name}
+    tag = f'assess[n={n},{peak_name}' + (',caller-supplied requirements]' if symreq else ']')
+    case = {'kind': 'assess', 'n': n, 'peak': peak_name, 'custom_requirements': symreq}
     model.math = __import__('harness.c16_models', fromlist=['SymMath']).SymMath()
     ln2 = C.sym_var('ln2', sign='+')
     C.CTX.assume(ln2 > Fraction(693, 1000))
@@ -436,6 +437,11 @@ def job_assess(j, seed):
     stats = {'red_chisq': sc.scalar(1.0), 'p_value': sc.scalar(pval), 'aic': sc.scalar(aic)}
     bstats = {'red_chisq': sc.scalar(1.0), 'p_value': sc.scalar(0.5), 'aic': sc.scalar(baic)}
     req = fp.FitRequirements()
+    r_pmin, r_fmax, r_fmin = Fraction(req.min_p_value), Fraction(req.max_peak_width_factor), Fraction(req.min_peak_width_factor)
+    if symreq:
+        r_pmin, r_fmax, r_fmin = C.sym_var('req_min_p', sign='+'), C.sym_var('req_max_width_factor', sign='+'), C.sym_var('req_min_width_factor', sign='+')
+        C.CTX.assume(r_pmin < 1)
+        req = fp.FitRequirements(min_p_value=r_pmin, max_peak_width_factor=r_fmax, min_peak_width_factor=r_fmin)
     C.CTX.fork_timeout_ms = 2000
     paths = C.explore(lambda: fp._assess_fit(da, peak, popt, stats, bstats, fit_requirements=req), max_paths=3000)
     with C.oracle():
@@ -463,10 +469,10 @@ def job_assess(j, seed):
         defs = [*[ms <= s_ for s_ in steps], C.any_of([ms == s_ for s_ in steps])]
         goals = {
             'background not better (AIC)': ~(baic < aic),
-            'p-value >= minimum': pval >= Fraction(req.min_p_value),
+            'p-value >= minimum': pval >= r_pmin,
             'not within two steps of either edge': (loc - xs[0] >= 2 * ms) & (xs[-1] - loc >= 2 * ms),
             'amplitude not negative': amp >= 0,
-            'FWHM <= max factor * window width': fwhm <= Fraction(req.max_peak_width_factor) * (xs[-1] - xs[0]),
+            'FWHM <= max factor * window width': fwhm <= r_fmax * (xs[-1] - xs[0]),
         }
         for nm, g in goals.items():
             ob = C.prove(f'{tag}:path{k}:success => {nm}', g, assumptions=defs, pc=p.pc, timeout_ms=20000)
@@ -479,7 +485,7 @@ def job_assess(j, seed):
         for c in range(n):
             lo_, hi_ = max(c - 1, 0), min(c + 1, n - 1)
             nearest = C.all_of([abs(xs[c] - loc) <= abs(xs[i] - loc) for i in range(n)])
-            width_ok = width_ok | (nearest & (fwhm >= Fraction(req.min_peak_width_factor) * (xs[hi_] - xs[lo_]) / (hi_ - lo_)))
+            width_ok = width_ok | (nearest & (fwhm >= r_fmin * (xs[hi_] - xs[lo_]) / (hi_ - lo_)))
         ob = C.prove(f'{tag}:path{k}:success => FWHM >= min factor * coordinate spacing around the nearest grid point', width_ok, assumptions=defs, pc=p.pc, timeout_ms=30000)
         obs.append(ob_dict(ob))
         if ob.status == 'violated':
@@ -695,7 +701,7 @@ def run(chk):
     run_jobs(chk, job_stats, [(3, 2), (4, 2), (2, 2), (4, 5)])
     run_jobs(chk, job_stats_public, [(6, 'gaussian', 'linear'), (7, 'lorentzian', 'quadratic')])
     run_jobs(chk, job_bkgstats, [(('gaussian',), ('linear', 'quadratic')), (('gaussian', 'lorentzian'), ('linear', 'quadratic'))] + ([] if chk.tier == 'quick' else [(('pseudo_voigt', 'gaussian', 'lorentzian'), ('quadratic', 'linear'))]))
-    run_jobs(chk, job_assess, [(4, 'gaussian'), (5, 'lorentzian')] if chk.tier == 'quick' else [(4, 'gaussian'), (5, 'gaussian'), (5, 'lorentzian'), (5, 'pseudo_voigt')])
+    run_jobs(chk, job_assess, [(4, 'gaussian'), (5, 'lorentzian'), (4, 'gaussian', True)] if chk.tier == 'quick' else [(4, 'gaussian'), (5, 'gaussian'), (5, 'lorentzian'), (5, 'pseudo_voigt'), (4, 'gaussian', True), (5, 'lorentzian', True)])
     run_jobs(chk, job_windows, [1, 2, 3])
     run_jobs(chk, job_loop, [0])
     run_jobs(chk, job_remove, [0])
@@ -791,6 +797,35 @@ def replay_real(case):
             if bst is not None and not any(s_ is bst for k_, s_ in produced if k_ == bkey):
                 whose = [sorted(k_) for k_, s_ in produced if s_ is bst]
                 bad.append(f'candidate with background parameters {sorted(bkey)} was compared with the background-only fit of {whose}')
+    elif kind == 'assess' and case.get('custom_requirements'):
+        # caller-supplied requirements through the public API: peaks of 2.4, 7 and 14 grid steps FWHM on a noisy linear
+        # background; every result marked successful must satisfy each requirement as recomputed here
+        rng_ = np.random.default_rng(4)
+        x = np.arange(0.0, 240.0)
+        centres = [40.0, 120.0, 200.0]
+        sig = [1.0, 3.0, 6.0]
+        y = 5.0 + 0.01 * x
+        for c_, s_ in zip(centres, sig, strict=True):
+            y = y + 200.0 / (np.sqrt(2 * np.pi) * s_) * np.exp(-(x - c_) ** 2 / (2 * s_ ** 2))
+        var = np.full_like(y, 0.04)
+        da = sc.DataArray(sc.array(dims=['x'], values=y + rng_.normal(size=len(x)) * 0.2, variances=var), coords={'x': sc.array(dims=['x'], values=x)})
+        for fmin, fmax, pmin in ((4.0, 0.6, 0.001), (1.0, 0.2, 0.001), (10.0, 1.0, 0.001)):
+            req = peaks.FitRequirements(min_p_value=pmin, max_peak_width_factor=fmax, min_peak_width_factor=fmin)
+            res = peaks.fit_peaks(da, peak_estimates=sc.array(dims=['x'], values=centres), windows=sc.scalar(60.0), background='linear', peak='gaussian', fit_requirements=req)
+            for c_, r_ in zip(centres, res, strict=True):
+                if not r_.success:
+                    continue
+                fw = float(r_.peak.fwhm(r_.popt).value)
+                lo_, hi_ = (float(t_) for t_ in r_.window.values)
+                ctr = float(sc.values(r_.popt['peak_loc']).value)
+                i_ = int(np.argmin(abs(x - ctr)))
+                spacing = (x[min(i_ + 1, len(x) - 1)] - x[max(i_ - 1, 0)]) / (min(i_ + 1, len(x) - 1) - max(i_ - 1, 0))
+                if fw < fmin * spacing:
+                    bad.append(f'peak at {c_} marked successful with FWHM {fw:.3g} = {fw / spacing:.3g} grid steps although min_peak_width_factor = {fmin}')
+                if fw > fmax * (hi_ - lo_):
+                    bad.append(f'peak at {c_} marked successful with FWHM {fw:.3g} in a window of width {hi_ - lo_:.3g} although max_peak_width_factor = {fmax}')
+                if float(r_.p_value.value) < pmin:
+                    bad.append(f'peak at {c_} marked successful with p = {float(r_.p_value.value):.3g} < {pmin}')
     elif kind == 'assess':
         model = case.get('model', {})
         n = case['n']
